@@ -634,7 +634,8 @@ def action_corpus(pid, tier, seed, workdir):
     g2 = gen_grammars(50 if q else 500, seed * 1000 + 37, CORE_OPS + CONV_OPS + ["enable", "disable"], 3 if q else 4, rnd, [1, 2])
     # (3) global failure: must family, raise, try_catch, throwing actions, custom messages
     g3 = gen_grammars(70 if q else 700, seed * 1000 + 41, CORE_OPS + RAISE_OPS * 2 + ["enable", "disable", "list", "pad"], 3 if q else 4, rnd,
-                      [1, 2, 3, 4], veto=True, throw=True, errmsg=True)
+                      [1, 2, 3, 4], veto=True, throw=True, errmsg=True,
+                      atoms=["any", "one", "one2", "not_one", "range", "string2", "string3", "eof", "success", "failure", "ab", "punct_one", "punct_string"])
     # (4) slot shapes: raising / throwing leaves under every combinator incl. try_catch
     shapes = in_contexts(conv_shapes(bounds=(0, 1, 2)) + try_shapes(), contexts=("bare", "seq"))
     shapes += slot_shapes(CORE_OPS, CORE_OPS, contexts=("bare",))
@@ -673,7 +674,7 @@ def action_corpus(pid, tier, seed, workdir):
         runs.append(Run(t, args=["--prop", pid]))
     for t in write_tus(workdir, "a2", g2, per, 2, C09_INCLUDES):
         runs.append(Run(t, args=["--prop", pid]))
-    for t in write_tus(workdir, "a3", g3, per, 3, C09_INCLUDES):
+    for t in write_tus(workdir, "a3", g3, per, 11 if pid == "C05" else 3, C09_INCLUDES):
         runs.append(Run(t, args=["--prop", pid]))
     for t in write_tus(workdir, "a4", shapes, 16, 2, C09_INCLUDES):
         runs.append(Run(t, args=["--prop", pid, "--rc", "400" if q else "5000"]))
@@ -684,7 +685,7 @@ def plan_actions(pid):
     def plan(tier, seed, workdir, case):
         if case is not None:
             mi = bool(case.get("grammar", {}).get("mustif"))
-            cfgset = (10 if mi else 4) if pid == "C08" else 9 if (pid == "C05" and case.get("grammar", {}).get("mustif")) else 3
+            cfgset = (10 if mi else 4) if pid == "C08" else (9 if mi else 11) if pid == "C05" else 3
             return replay_corpus_plan(pid, workdir, case, cfgset=cfgset, extra_includes=C09_INCLUDES)
         return action_corpus(pid, tier, seed, workdir)
     return plan
@@ -698,7 +699,8 @@ ACTION_CORPUS_TEXT = ("corpus: (1) random grammars over core operators, enable/d
                       "four-level ones) of enable / disable / at / not_at / action< act > / action< act1 > around a rule with bool and void "
                       "actions in both families; (2) void logging actions anywhere over all "
                       "operators; (3) must/if_must/opt_must/star_must/list_must/raise/raise_message/all eight try_catch rules with actions "
-                      "that throw std- and non-std exceptions carrying a serial number, custom error_message members; (4) every combinator "
+                      "that throw std- and non-std exceptions carrying a serial number, custom error_message members, character arguments that are "
+                      "delimiters in a printed type name (; ] = [ , > quote space); (4) every combinator "
                       "over slots that raise or throw, try blocks nested in predicates, repetitions and choices.  Inputs: all strings to "
                       "length 5/7 (shortest first) plus rapidcheck strings, scripts and salts; 3-5 configurations per case. ")
 
